@@ -23,8 +23,9 @@ RULE = ('literal and description strings drawn over the whole character set the 
         'characters are stripped exactly, and a canary directory keeps its content. '
         'non-trivial = grammar containing >= 1 string with a shell-special character; distinct by (text, shell / query)')
 RULE += ' ' + 'Half of the cases hold two words of the same table shape (the bash emitter writes the literal tables of shape-sharing words at another place than those of a word with a shape of its own).'
-ASSUMPTIONS = ['fish / zsh / pwsh constants are decoded by cgv/readers.py (documented double-quote rules); curly quotes '
-               '(a PowerShell string terminator) are not generated',
+ASSUMPTIONS = ['fish / zsh / pwsh constants are decoded by cgv/readers.py (documented double-quote rules); one description '
+               'with typographic quotes (a PowerShell string terminator by its tokenizer\'s rule) is generated; what pwsh '
+               'does with it is the recorded finding KF-L',
                'command names are plain (`cmd`): the statement is about literals and descriptions']
 MIN_EVALS = {'quick': 1500, 'thorough': 15000}
 
@@ -36,7 +37,8 @@ PAYLOADS = ['$(>pwn1)', '`>pwn2`', '${HOME}', '$HOME', '~', '!!', 'f*', '?1', '[
             'x=y', 'a:b', 'a@b', 'a,b', '^x', "'", "''", '"$x"', '`', '``']
 DESCRS = ['plain words', 'has "quotes" inside', 'cost is $5 or $HOME', 'back`tick` here', 'back\\slash', 'ends with \\',
           '$(>pwn3) payload', '`>pwn4` payload', 'tab\there', 'semi; colon: (paren) [brk] {brace} <angle>', "single ' quote",
-          'star * qmark ? tilde ~', 'é ü 日本語', '!! history !$', '%s %d', '#hash', '${x:-y}', '"', '\\"', '$', '``', '\\\\']
+          'star * qmark ? tilde ~', 'é ü 日本語', '!! history !$', '%s %d', '#hash', '${x:-y}', '"', '\\"', '$', '``', '\\\\',
+          'smart \u201dquotes\u201c here']
 
 
 def rand_string(r):
